@@ -1,8 +1,12 @@
 """C19 - the witness only ever cosigns a forward-moving, consistent history per log.
 
-spec/witness/Witness.tla (sequential), MCWitness (cover / simulation), WitnessTrace (concurrent
-linearizability).  Binding: replay of TLC behaviours into the real witness on sqlite (direct API
-and HTTP server), and validation of invoke/return traces recorded from concurrent callers.
+spec/witness/Witness.tla (sequential; requests carry a spelling of the log id and a storage fault),
+MCWitness (cover / simulation), WitnessTrace (concurrent linearizability with logged fault windows).
+Binding: replay of TLC behaviours into the real witness on sqlite (direct API and HTTP server) with
+the step's spelling of the log id and the step's storage fault injected for real (a second connection
+to the database file holding a SHARED / RESERVED / EXCLUSIVE lock, a cancelled context), an independent
+monitor of stored rows and cosigned replies per 32-byte log id, and validation of invoke/return traces
+recorded from concurrent callers.
 """
 import json
 import os
@@ -15,6 +19,12 @@ ASSUME = [
     "candidate STHs are drawn from two tree families (honest, fork) of size <= MaxSize and a proof catalogue "
     "(correct, other sizes, other fork, truncated, padded, random, empty)",
     "sqlite configured as impl.Main does (one open connection)",
+    "storage faults are the ones a second connection to the database file can cause (COMMIT fails under a SHARED "
+    "lock, INSERT fails under a RESERVED lock, every statement fails under an EXCLUSIVE lock) plus a context "
+    "cancelled before the call; fault databases use _busy_timeout=0 (a locked statement fails at once instead of "
+    "after 5 s); a fault lasts for one request (replay) or for a logged window (traces)",
+    "log-id spellings: configured string, unused trailing bits set, CR/LF inserted, padding dropped, URL-safe "
+    "alphabet, leading/trailing blank; named clause AliasIsUnknown (only the configured string names a known log)",
 ]
 
 
